@@ -68,6 +68,10 @@ func (m *Method) HasResults() bool {
 
 func (m *Method) ensureParamNames() {
 	paramDeduper := make(map[string]int, len(m.Input)+len(m.Output))
+	// To better preserve a customer's naming in case of them colliding with our own,
+	// register the named variables (of inputs and outputs) first:
+	m.Input.keepUserNames(paramDeduper)
+	m.Output.keepUserNames(paramDeduper)
 	m.Input.ensureNames(paramDeduper, false)
 	m.Output.ensureNames(paramDeduper, true)
 }
